@@ -207,6 +207,8 @@ func buildReport(prop, tier string, seed int64, cfg config, b budgets, ld *loade
 			problems = append(problems, "native build failed: "+clip(nativeErr.Error(), 2000))
 		}
 	}
+	var nbRace *nativeBuild
+	defer func() { nbRace.cleanup() }()
 	binFor := func(harness string) string {
 		if nb == nil {
 			return ""
@@ -267,7 +269,26 @@ func buildReport(prop, tier string, seed int64, cfg config, b budgets, ld *loade
 			}
 			status = "not-reproduced"
 			for t := 0; t < tries; t++ {
-				nr, err := runNative(binFor(pv.h.Harness), p, pv.h.Harness, 150*time.Second)
+				bin := binFor(pv.h.Harness)
+				if v.Kind == "race" {
+					// confirmation by the Go race detector: the same harness, built with -race
+					if nbRace == nil {
+						var rerr error
+						nbRace, rerr = buildNativeOpt(*flagRepo, ld, cfg.Tags, true)
+						if rerr != nil {
+							status = "replay-error: race build failed: " + clip(rerr.Error(), 500)
+							break
+						}
+					}
+					for i, dir := range ld.harnessPkgDirs {
+						for _, h := range ld.harnesses {
+							if h.Pkg == ld.pkgs[i] && h.Name() == pv.h.Harness {
+								bin = nbRace.bins[dir]
+							}
+						}
+					}
+				}
+				nr, err := runNative(bin, p, pv.h.Harness, 150*time.Second)
 				if err != nil {
 					status = "replay-error: " + err.Error()
 					break
